@@ -292,3 +292,7 @@ REWRITES = [
     Rewrite("ws_close-reorder", RDV, "            self._N.lost()\n            self._M.lost()\n",
             "            self._M.lost()\n            self._N.lost()\n", desc="loss notifications reordered"),
 ]
+
+MUTANTS.append(Mutant("close-omits-mailbox", RDV, "        self._tx(\"close\", mailbox=mailbox, mood=mood)", "        if mailbox == getattr(self, \"_opened_mailbox\", None):\n            self._tx(\"close\", mood=mood)\n        else:\n            self._tx(\"close\", mailbox=mailbox, mood=mood)", "C09.R4",
+                      "two cooperating sites: tx_open remembers the mailbox, tx_close leaves it out when it is the remembered one - also after a reconnect",
+                      also=((RDV, "    def tx_open(self, mailbox):\n", "    def tx_open(self, mailbox):\n        self._opened_mailbox = mailbox\n"),)))
